@@ -11,7 +11,7 @@ Max2(a, b) == IF a > b THEN a ELSE b
 Track == TLCSet(1, Max2(TLCGet(1), l))
 \* A state that breaks a Layer A invariant is not an explanation: it is pruned (and does not
 \* count as progress), so an invariant can only fail the validation by leaving no explanation.
-TrackOk == TopicInv /\ Track
+TrackOk == TopicInv /\ Track /\ (l = N + 1 => PrintT(<<"ACCEPTED", N>>) /\ TLCSet("exit", TRUE))
 R == Rec[l]
 Is(k) == l <= N /\ R.k = k
 Next1 == l' = l + 1
